@@ -8,7 +8,7 @@ RULE = ("bodies of every declared type (HTML, JSON, XML / RSS / sitemap, S3 list
         "generated valid, then mutated (truncation, byte flips and insertions incl. NUL and invalid UTF-8, duplicated and deleted lines / "
         "chunks, numbers replaced by huge / negative / non-numeric tokens, attribute and tag soup, nesting 1..5000 deep) and also served "
         "under every other declared type (type confusion); Location, Link and Content-Type header values; URL strings - all fed through "
-        "the real ProcessBody, extractor dispatch, postprocess (redirect handling) and normaliser under a 20 s watchdog. A case fails when "
+        "the real ProcessBody, extractor dispatch, postprocess (redirect handling) and normaliser under a 10 s watchdog. A case fails when "
         "a panic escapes the call chain, the watchdog fires, or the harness does not answer the next request. Non-trivial: a mutated input "
         "that the parser rejected or from which fewer links came out than from its parent; distinct by input bytes")
 TYPES = ["text/html", "application/json", "application/xml", "application/rss+xml", "application/vnd.apple.mpegurl", "application/x-mpegURL",
@@ -39,6 +39,9 @@ def samples(r):
         out.append(("application/pdf", open(pdf, "rb").read()))
     out.append(("text/plain", b"see http://a.example/x and https://b.example/y.png, also www.c.example\n" * 5))
     return out
+
+
+WATCHDOG_MS = 10000
 
 
 NUMS = [b"", b"-1", b"0", b"99999999999999999999999", b"NaN", b"1e999", b"0x10", b"@", b"1.5.5", b"-", b"\x00"]
@@ -93,7 +96,11 @@ def mutate(r, b):
 
 
 def judge(ctx, h, op, out, what):
-    if out.startswith("crash") or out.startswith("panic") or out == "hang" or out.startswith("harness-error"):
+    if out.startswith("hang in github.com/pdfcpu/"):
+        # the listed finding, identified by its call site; a hang anywhere else is a violation
+        ctx.known_finding("D24", "%s: %s" % (what, out), {"domain": "extract", "op": op})
+        return False
+    if out.startswith("crash") or out.startswith("panic") or out.startswith("hang") or out.startswith("harness-error"):
         ctx.violation("%s: %s" % (what, out[:200]), {"domain": "extract", "op": op})
         return False
     return True
@@ -109,9 +116,13 @@ def run(ctx):
     try:
         for f in sorted(os.listdir(d)) if os.path.isdir(d) else []:
             w = json.load(open(os.path.join(d, f)))
-            out = h.send(w["op"])
+            out = h.send(dict(w["op"], timeoutMs=WATCHDOG_MS))
             ctx.case("corpus" + f, True)
             judge(ctx, h, w["op"], out, w["note"])
+            if out.startswith("hang"):
+                h.close()          # a goroutine of that process spins for ever: start a new one
+                h = core.Interactive("extract")
+                h.send({"op": "cfg", "maxHops": 3})
         parents = {}
         for i, (ct, body) in enumerate(base):
             hdrs = {"Server": "AmazonS3"} if ct == "s3" else {}
@@ -129,8 +140,14 @@ def run(ctx):
                 hdrs["Link"] = r.choice(['<http://a.example/x>; rel="next"', "<>; rel=", ";;;,,, <", "<" * 2000, '<http://a.example/\x00>; rel="a"; b', "<//x>;=", ", ".join(["<u%d>" % j for j in range(300)])])
             op = {"op": "doc", "url": r.choice(["http://site.example/d/x", "https://site.example/a/b/c.m3u8?x=1", "http://s3.example/?list-type=2&prefix=a%2F"]),
                   "ctype": "application/xml" if served == "s3" else served, "headers": hdrs, "bodyhex": m.hex()}
-            out = h.send(op)
+            out = h.send(dict(op, timeoutMs=WATCHDOG_MS))
             ok = judge(ctx, h, op, out, "mutated %s body served as %r" % (ct, served))
+            if out.startswith("hang"):
+                ctx.count("hangs")
+                h.close()
+                h = core.Interactive("extract")
+                h.send({"op": "cfg", "maxHops": 3})
+                continue
             fewer = False
             if ok and out.startswith("{"):
                 res = json.loads(out)
@@ -182,7 +199,7 @@ def run(ctx):
     ctx.assumptions += ["what a parser does on a given input (return, error, panic, spin) is outside the model: that no panic escapes and nothing spins "
                         "is established by this fuzzing, i.e. by testing, not by proof; the theorem states what each behaviour costs",
                         "stack exhaustion and out-of-memory are fatal in Go and cannot be recovered: nesting up to 5000 levels and bodies up to a few MB are tried",
-                        "hang = no answer within 20 s for one document"]
+                        "hang = no answer within 10 s for one document (the process is then replaced: the spinning goroutine cannot be stopped)"]
 
 
 def replay(ctx, doc):
